@@ -387,7 +387,9 @@ class Check:
         for key, cnt in sorted(self.known_hits.items()):
             print('KNOWN-FINDING: property=%s %s (%d cases) -- %s' % (self.prop, key, cnt, kf.get(key, '')))
         rc = 0
-        for k, (replay, no_input) in enumerate(self.violations[:20]):
+        # concrete failing inputs first, broken obligations / ties without an input after them
+        ordered = [v for v in self.violations if not v[1]] + [v for v in self.violations if v[1]]
+        for k, (replay, no_input) in enumerate(ordered[:20]):
             h = hashlib.sha256(json.dumps(replay, sort_keys=True).encode()).hexdigest()[:10]
             path = os.path.join(VERIF, 'replays', '%s-%s.json' % (self.prop, h))
             replay = dict(replay, property=self.prop, seed=self.seed, tier=self.tier)
